@@ -1,3 +1,30 @@
-From VZ Require Import Base.Prelude Model.Service.
-Theorem C07_placeholder : True. Proof. exact I. Qed.
-Print Assumptions C07_placeholder.
+(* C07 — RAM and SQL datastores are observationally equivalent behind the service.
+   Both backends are tied, by trace-level correspondence, to ONE model of the DataStore contract (Model/Service.v exec);
+   equivalence of the backends is then equality of two runs of the same function.  What needs an argument is the two
+   places where the implementations compute differently. *)
+From VZ Require Import Base.Prelude Model.Service Proofs.ServiceP.
+
+(* RAM: next operation number = len(ops)+1.  SQL: max(operation_number)+1.  Equal for operations numbered 1..k *)
+Theorem C07_operation_numbering_agrees : forall l, numbered_from 1 l ->
+  N.of_nat (length l) = fold_left (fun m o => N.max m (o_num o)) l 0%N.
+Proof. exact len_eq_max. Qed.
+Print Assumptions C07_operation_numbering_agrees.
+
+(* the model is a function of the call sequence: two servers fed the same calls and oracle answers agree *)
+Theorem C07_same_calls_same_observations : forall ops s1 s2, s1 = s2 ->
+  run_outcomes ops s1 = run_outcomes ops s2 /\ run_all ops s1 = run_all ops s2.
+Proof. intros ops s1 s2 ->. split; reflexivity. Qed.
+Print Assumptions C07_same_calls_same_observations.
+
+(* delete + re-create under the same name: a fresh study, operation numbering restarts (kernel-evaluated history) *)
+Theorem C07_recreate_is_fresh :
+  let mk := (CreateStudy 1 1 false (mkS SS_ACTIVE [(1%N, true)] []), PFail EOther) in
+  let ops := [mk; (SuggestTrials (1, 1)%N 1 1, PDeliver [5%N] [] []); (DeleteStudy (1, 1)%N, PFail EOther); mk;
+              (SuggestTrials (1, 1)%N 1 1, PDeliver [6%N] [] [])] in
+  match run_outcomes ops init_state with
+  | [_; _; _; _; Done (RpOp o)] => N.eqb (o_num o) 1 && Nat.eqb (length (o_trials o)) 1 &&
+                                    match o_trials o with [t] => N.eqb (t_id t) 1 | _ => false end
+  | _ => false
+  end = true.
+Proof. vm_compute. reflexivity. Qed.
+Print Assumptions C07_recreate_is_fresh.
